@@ -116,8 +116,9 @@ def isoformat(dt: datetime.date | datetime.time | datetime.timedelta) -> str:
     return _duration_isoformat(dt)
 
 
-@compat.lru_cache(maxsize=100_000)
 def _duration_isoformat(dt: datetime.timedelta) -> str:
+    # Not memoised: durations which compare (and hash) equal can be written differently
+    #   (`pendulum.duration(months=1) == timedelta(days=30)`, "P1M" vs. "P30D").
     # Negative components aren't valid ISO-8601, the sign leads the whole duration.
     if dt < datetime.timedelta(0):
         return f"-{_duration_isoformat(-dt)}"
